@@ -257,6 +257,79 @@ func runC16(cfg *config) *Report {
 			rep.sample(map[string]any{"enc": in.e.String(), "input": in.desc, "bytes": len(in.b), "reference": ref[:min(80, len(ref))]})
 		}
 	}
+	// a file with one long record (an image of several kilobytes): buffer sizes just above that record, none
+	// of them a round number - any buffer that can hold the longest record must do
+	for tries, done := 0, 0; tries < 40 && done < 1+nFiles/4; tries++ {
+		f, err := genFile(r, genOpts{maxCL: 1, maxBundles: 1, maxItems: 2, mutateP: 10, kind: 1})
+		if err != nil {
+			continue
+		}
+		var iv *icl.ImageViewData
+		for _, b := range f.CashLetters[0].Bundles {
+			for _, cd := range b.Checks {
+				if len(cd.ImageViewData) > 0 && iv == nil {
+					iv = &cd.ImageViewData[0]
+				}
+			}
+		}
+		if iv == nil {
+			continue
+		}
+		img := make([]byte, 5000+r.Intn(9000))
+		for i := range img {
+			img[i] = "ABCXYZ0189!$%*-_+/="[r.Intn(19)]
+		}
+		img[0] = '!'
+		iv.ImageData = img
+		iv.LengthImageData = fmt.Sprintf("%07d", len(img))
+		done++
+		for _, e := range allEnc {
+			out, werr, _ := realWrite(f, e)
+			if werr != nil {
+				continue
+			}
+			longest := 0
+			if e.LP {
+				for _, p := range prefixBoundaries(out) {
+					if n := int(out[p])<<24 | int(out[p+1])<<16 | int(out[p+2])<<8 | int(out[p+3]); n+4 > longest {
+						longest = n + 4
+					}
+				}
+			} else {
+				for _, l := range bytes.Split(out, []byte("\n")) {
+					if len(l)+2 > longest {
+						longest = len(l) + 2
+					}
+				}
+			}
+			ref, p := readChunked(out, e, 1<<22, []int{len(out) + 1}, false)
+			if p != nil || len(ref) < 2 || ref[:2] != "ok" {
+				continue
+			}
+			for _, bs := range []int{longest + 8, longest + 1000, longest + 4097, 3*longest + 17} {
+				for si, sched := range [][]int{{len(out) + 1}, {4096}, {1000, 3000, 777}} {
+					full := sched
+					if si > 0 {
+						full = nil
+						for n := 0; n < len(out); n += sched[len(full)%len(sched)] {
+							full = append(full, sched[len(full)%len(sched)])
+						}
+					}
+					got, p := readChunked(out, e, bs, full, si == 1)
+					evals++
+					rep.count("long-record-file")
+					rep.nontrivial(fmt.Sprintf("long/%s/%d/%d", e.String(), bs, si))
+					if p != nil {
+						rep.violate(Violation{Key: "C16:reader-panic", What: fmt.Sprint("Reader panicked: ", p), Replay: map[string]any{"bytes": hx(out), "enc": e.String()}})
+					} else if got != ref {
+						rep.violate(Violation{Key: "C16:depends-on-buffer-size:" + e.String(),
+							What:   fmt.Sprintf("read result depends on the configured scanner buffer although it can hold the longest record (%d bytes; buffer %d)", longest, bs),
+							Replay: map[string]any{"bytes": hx(out), "enc": e.String(), "buffer": bs, "longest_record": longest, "schedule": full, "reference": ref[:min(200, len(ref))], "observed": got[:min(200, len(got))]}})
+					}
+				}
+			}
+		}
+	}
 	// scanner-model correspondence: the Lean scanner model (bufio.Scanner over the translated split
 	// function, then the reader loop) against the real Reader, including buffers that are too small
 	var ops []string
